@@ -269,6 +269,16 @@ func (e *Engine) Run(ops []string, res *report.Result) *report.Failure {
 			case "reset":
 				line = op
 				act = func() bool { return cl.ResetState() != nil }
+			case "populate":
+				// c populate (<name> <listen> <upstream> <enabled 0|1>)*
+				if (len(w)-2)%4 == 0 {
+					line = op
+					var cfg []tclient.Proxy
+					for k := 2; k+3 < len(w); k += 4 {
+						cfg = append(cfg, tclient.Proxy{Name: w[k], Listen: w[k+1], Upstream: w[k+2], Enabled: w[k+3] == "1"})
+					}
+					act = func() bool { _, err := cl.Populate(cfg); return err != nil }
+				}
 			case "add", "cadd":
 				at := attrText(7)
 				line = fmt.Sprintf("c %s %s %s %s %s %s %s", w[1], w[2], w[3], w[4], w[5], fracOf(w[6]), sortedAttrTokens(at))
